@@ -36,3 +36,6 @@ const RxAlphabet = rxAlphabet
 func PrefixClass(prefix string) Rx {
 	return rxAnch{rxCat{rxLit(prefix), rxClass{'a', 'c'}}, true, true}
 }
+
+// AnchoredLiteral is the pattern "^lit$" (either anchor optional).
+func AnchoredLiteral(lit string, start, end bool) Rx { return rxAnch{rxLit(lit), start, end} }
